@@ -654,6 +654,13 @@ func genCodecEncT(g *Gen, w *bufio.Writer, t *fTables) {
 			h[d.TypeIndex] = wire[d.TypeIndex]
 			fmt.Fprintf(w, "enc %s hdr=%s %s %s\n", fam, hexs(h), m.Name, fieldsStr(man, opt))
 		}
+		if d != nil && g.Intn(6) == 0 {
+			// a stored Len that does not match the contents of a buffer-backed element (contents assigned directly, Len stale): not
+			// well formed in C02's sense; the encoders write what is stored, and must leave the message as it is
+			if sm, so, ok := staleLenMsg(g, m, man, opt); ok {
+				fmt.Fprintf(w, "enc %s hdr=%s %s %s\n", fam, hdr, m.Name, fieldsStr(sm, so))
+			}
+		}
 		if d != nil {
 			fmt.Fprintf(w, "canon %s\n", hexs(wire))
 			fmt.Fprintf(w, "dec plain %s\n", hexs(wire))
@@ -993,6 +1000,9 @@ func genSpec(g *Gen, w *bufio.Writer) {
 			for _, ft := range focusTargets(g, t) {
 				m := ft.m
 				focusFamilies(g, t, ft, bases, func(man []ieVal, opt []*ieVal) {
+					if staleVals(m, man, opt) {
+						return
+					}
 					sm := make([]ieVal, len(man))
 					for i := range man {
 						sm[i] = specValOf(&m.DecMan[i], man[i])
@@ -1104,4 +1114,43 @@ func genSpecMsg(g *Gen, w *bufio.Writer, m *fMsg, typ, ti, epd int) {
 		}
 		fmt.Fprintf(w, "sdec %s %s\n", m.Name, hexs(b))
 	}
+}
+
+// staleLenMsg: a copy of the message in which one present buffer-backed lengthed element declares another length than its contents have
+func staleLenMsg(g *Gen, m *fMsg, man []ieVal, opt []*ieVal) ([]ieVal, []*ieVal, bool) {
+	sm := append([]ieVal{}, man...)
+	so := make([]*ieVal, len(opt))
+	var cand []int
+	for i := range m.DecMan {
+		if m.DecMan[i].Store == "buf" && m.DecMan[i].LenSize > 0 {
+			cand = append(cand, i)
+		}
+	}
+	for j := range opt {
+		if opt[j] != nil {
+			v := *opt[j]
+			so[j] = &v
+			if m.DecOpt[j].Store == "buf" && m.DecOpt[j].LenSize > 0 {
+				cand = append(cand, len(man)+j)
+			}
+		}
+	}
+	if len(cand) == 0 {
+		return nil, nil, false
+	}
+	k := cand[g.Intn(len(cand))]
+	bump := func(v *ieVal, lenSize int) {
+		max := 1<<uint(8*lenSize) - 1
+		n := v.ln + []int{1, 2, -1, 7}[g.Intn(4)]
+		if n < 0 || n > max || n == v.ln {
+			n = (v.ln + 1) % (max + 1)
+		}
+		v.ln = n
+	}
+	if k < len(man) {
+		bump(&sm[k], m.DecMan[k].LenSize)
+	} else {
+		bump(so[k-len(man)], m.DecOpt[k-len(man)].LenSize)
+	}
+	return sm, so, true
 }
